@@ -13,7 +13,7 @@ From Verif.Sem Require Import Field Val RInst RLemmas.
 From Verif.Vec Require Import Vec3.
 From Verif.C01 Require Import Spec.
 From Verif.C03 Require Import SemExt.
-From Verif.C08 Require Import Spec.
+From Verif.C08 Require Import Spec Basis.
 From Run Require Import GenUtils GenTof GenBeamline TieC01 TieC03 Tie.
 Open Scope R_scope.
 
@@ -108,6 +108,39 @@ Theorem C08_ub_is_product : forall U B su sb dmu dmb,
   ub_matrix_from_u_and_b O (tmat h mn U su dmu) (tmat h mn B sb dmb) = tmat h mn (mmul U B) (su * sb) (dadd dmu dmb).
 Proof using. exact (ub_is_product h mn). Qed.
 
+(* ... and for a B of EITHER handedness.  B P is B in a re-labelled / mirrored reciprocal basis (P any invertible matrix;
+   for a mirror P of Verif.C08.Basis - two axes interchanged, one or all three inverted - det(B P) = - det(B), a
+   left-handed basis, as non-singular and as well conditioned as B): ub_matrix_from_u_and_b followed by
+   hkl_vec_from_Q_vec returns P^-1 applied to the hkl of the basis B, which solves 2 pi R U (B P) hkl = Q.
+   There is no hypothesis on the sign of a determinant anywhere. *)
+Theorem C08_hkl_any_handedness : forall Rm Um Bm P qx qy qz sR sU sB sq dR dU dB dq,
+  sR > 0 -> sU > 0 -> sB > 0 -> mdet (mmul Rm (mmul Um Bm)) <> 0 -> mdet P <> 0 ->
+  length dR = 9%nat -> length dU = 9%nat -> length dB = 9%nat -> length dq = 9%nat ->
+  let H := mapp (minv P) (hkl_spec Rm (mmul Um Bm) (mkV qx qy qz)) in
+  exists u, hkl_vec_from_Q_vec O (tv qx qy qz sq dq)
+              (ub_matrix_from_u_and_b O (tmat h mn Um sU dU) (tmat h mn (mmul Bm P) sB dB)) (tmat h mn Rm sR dR)
+            = VVar O (EVec O (vx H) (vy H) (vz H)) u DVec3
+            /\ ud O u = dsub dq (dadd dR (dadd dU dB)) /\ us O u = sq / (sR * (sU * sB))
+            /\ vsc (2 * PI) (mapp (mmul Rm (mmul Um (mmul Bm P))) H) = mkV qx qy qz.
+Proof using. exact (hkl_rebased_units h mn). Qed.
+
+(* instance: b* and c* interchanged - det changes sign, k and l come back interchanged *)
+Theorem C08_hkl_axes_swapped : forall Rm Um Bm qx qy qz sR sU sB sq dR dU dB dq,
+  sR > 0 -> sU > 0 -> sB > 0 -> mdet (mmul Rm (mmul Um Bm)) <> 0 ->
+  length dR = 9%nat -> length dU = 9%nat -> length dB = 9%nat -> length dq = 9%nat ->
+  let H := hkl_spec Rm (mmul Um Bm) (mkV qx qy qz) in
+  mdet (mmul Bm Pswap23) = - mdet Bm
+  /\ exists u, hkl_vec_from_Q_vec O (tv qx qy qz sq dq)
+              (ub_matrix_from_u_and_b O (tmat h mn Um sU dU) (tmat h mn (mmul Bm Pswap23) sB dB)) (tmat h mn Rm sR dR)
+            = VVar O (EVec O (vx H) (vz H) (vy H)) u DVec3
+            /\ ud O u = dsub dq (dadd dR (dadd dU dB)) /\ us O u = sq / (sR * (sU * sB)).
+Proof using. exact (hkl_axes_swapped h mn). Qed.
+
+(* every non-singular B has mirrored partners with the opposite sign of det: half of "every non-singular B" is left-handed *)
+Theorem C08_left_handed_partner : forall B, mdet B <> 0 ->
+  forall P, mirror P -> mdet (mmul B P) <> 0 /\ mdet (mmul B P) * mdet B < 0.
+Proof. exact left_handed_partner. Qed.
+
 (* splitting into components and reassembling is the identity, both ways (exact, any unit) *)
 Theorem C08_split_join_lossless : forall x y z s dm,
   let E := hkl_elements_from_hkl_vec O (tv x y z s dm) in
@@ -149,6 +182,13 @@ Proof.
     unfold Rdiv at 1; rewrite Rmult_0_l, acos_0. pose proof PI_RGT_0; lra.
 Qed.
 
+(* a left-handed B: the same cell with b*, c* interchanged, det = -1/120; R U B is non-singular, P is a mirror *)
+Example C08_left_handed_nonvacuous :
+  mirror Pswap23 /\ mdet Pswap23 <> 0
+  /\ mdet (mmul (mkM (1 / 4) 0 0 0 (1 / 5) 0 0 0 (1 / 6)) Pswap23) = - (1 / 120)
+  /\ mdet (mmul (mkM 0 (-1) 0 1 0 0 0 0 1) (mmul mI (mkM (1 / 4) 0 0 0 (1 / 5) 0 0 0 (1 / 6)))) <> 0.
+Proof. repeat split; try (unfold mirror; tauto); unfold mdet, mmul, Pswap23, mI; simpl; lra. Qed.
+
 Print Assumptions C08_Q_elements.
 Print Assumptions C08_Qvec_formula.
 Print Assumptions C08_Qvec_norm.
@@ -158,6 +198,9 @@ Print Assumptions C08_Qvec_rotates.
 Print Assumptions C08_hkl_inverse.
 Print Assumptions C08_hkl_inverse_any_units.
 Print Assumptions C08_hkl_numbers_independent_of_units.
+Print Assumptions C08_hkl_any_handedness.
+Print Assumptions C08_hkl_axes_swapped.
+Print Assumptions C08_left_handed_partner.
 Print Assumptions C08_ub_is_product.
 Print Assumptions C08_split_join_lossless.
 Print Assumptions C08_join_split_lossless.
